@@ -6,12 +6,15 @@
 (*   3  fixed (adaptive off), max 2, maxBatchDelay 1500 us -> 2 ms wait                                                  *)
 (*   4  adaptive, max 2, loadFactor 1/2, high threshold: utilisation decides alone; exactly 1/2 is neither up nor down   *)
 (*   5  adaptive, max 8 (starts at 4: the first size where a 25% step differs from a 50% step), 1 ms delay               *)
+(*   6  adaptive, max 2, threshold below the target: a FULL batch of 50 us at cur = max is "increase" (impossible) and    *)
+(*      "decrease" at once - the code then decreases                                                                     *)
 EXTENDS BatchProc
 MCCfgs == << [max |-> 4, adaptive |-> TRUE,  delay |-> 100,  thr |-> 25,  lfn |-> 3, lfd |-> 4],
              [max |-> 1, adaptive |-> TRUE,  delay |-> 100,  thr |-> 50,  lfn |-> 3, lfd |-> 4],
              [max |-> 2, adaptive |-> FALSE, delay |-> 1500, thr |-> 50,  lfn |-> 1, lfd |-> 2],
              [max |-> 2, adaptive |-> TRUE,  delay |-> 100,  thr |-> 100, lfn |-> 1, lfd |-> 2],
-             [max |-> 8, adaptive |-> TRUE,  delay |-> 1000, thr |-> 100, lfn |-> 1, lfd |-> 2] >>
+             [max |-> 8, adaptive |-> TRUE,  delay |-> 1000, thr |-> 100, lfn |-> 1, lfd |-> 2],
+             [max |-> 2, adaptive |-> TRUE,  delay |-> 100,  thr |-> 25,  lfn |-> 3, lfd |-> 4] >>
 MCSpecialSets == << {}, {3}, {1, 3} >>
 \* view of the test-plan graph: history (statistics, last outcome, op counter) projected away, time since the last
 \* adjustment point reduced to the classes the 100 ms rule distinguishes
